@@ -267,4 +267,51 @@ theorem apply_quant_transparent (ext : Nat → Nat) (hS : SiftContract ext) (m :
   rw [heq]
   exact quantify_transparent ext hS m hD v hv _ names hdecl
 
+/-! ### chaining two decorated calls: the intermediate result is `incref`ed (as autoref does) -/
+
+theorem HeldX.extInc {ext : Nat → Nat} {u : Int} (h : HeldX ext u) (k : Nat) :
+    HeldX (DD.extInc ext k) u := by
+  rcases h with h | h
+  · exact Or.inl h
+  · refine Or.inr ?_
+    unfold DD.extInc
+    split <;> omega
+
+theorem HeldX.extInc_self (ext : Nat → Nat) (u : Int) : HeldX (DD.extInc ext u.natAbs) u := by
+  refine Or.inr ?_
+  simp [DD.extInc]
+
+/-- taking a reference on a result keeps the state "between two calls", for the ledger with
+that reference added -/
+theorem DynInv.incref {ext : Nat → Nat} {m : Mgr} (h : DynInv ext m) (u : Int) (hu : m.tbl.Mem u) :
+    ∃ m', incref u m = (.ok (), m') ∧ DynInv (extInc ext u.natAbs) m' ∧ m'.tbl = m.tbl ∧
+      m'.lastLen = m.lastLen := by
+  obtain ⟨c, _, he, hr⟩ := incref_spec m ext u h.refs hu
+  have hk := incref_kept m h.inv u
+  rw [he] at hk
+  refine ⟨_, he, ⟨hk.inv, h.order, hr, h.ctx, h.sched, ?_, h.nvars⟩, rfl, rfl⟩
+  intro r hr'
+  have := h.roots r hr'
+  unfold DD.extInc
+  split <;> omega
+
+/-- two decorated calls in a row, e.g. the expression `ite(g, u, v) /\ w`: the result of the first
+is `incref`ed before the second (what the autoref wrapper does — otherwise a reordering in the
+second call may collect it); a reordering request may fire in either call. -/
+theorem ite_then_and_transparent (ext : Nat → Nat) (m : Mgr) (hD : DynInv ext m)
+    (hS : ∀ e, SiftContract e) (g u v w : Int)
+    (hg : HeldX ext g) (hu : HeldX ext u) (hv : HeldX ext v) (hw : HeldX ext w) :
+    ∃ r1 m1, ite g u v m = (.ok r1, m1) ∧ ∃ m1', incref r1 m1 = (.ok (), m1') ∧
+      ∃ r2 m2, apply "and" r1 (some w) none m1' = (.ok r2, m2) ∧
+        DynInv (extInc ext r1.natAbs) m2 ∧ m2.tbl.Mem r2 ∧
+        ∀ σ, denN m2.tbl r2 σ =
+          ((if denN m.tbl g σ then denN m.tbl u σ else denN m.tbl v σ) && denN m.tbl w σ) := by
+  obtain ⟨r1, m1, he1, hp1⟩ := ite_transparent ext (hS ext) m hD g u v hg hu hv
+  obtain ⟨m1', hinc, hD1, htbl, _⟩ := hp1.inv.incref r1 hp1.doc.1
+  obtain ⟨r2, m2, he2, hp2⟩ := apply_binary_transparent (extInc ext r1.natAbs) (hS _) m1' hD1
+    "and" .and (by decide) (by decide) (by decide) (by decide) (by decide) r1 w
+    (HeldX.extInc_self ext r1) (hw.extInc _)
+  refine ⟨r1, m1, he1, m1', hinc, r2, m2, he2, hp2.inv, hp2.doc.1, fun σ => ?_⟩
+  rw [hp2.doc.2 σ, and_eval, htbl, hp1.doc.2 σ, (hp1.held w hw).2 σ]
+
 end DD
